@@ -106,6 +106,8 @@ def run(ctx, repo):
     ctx.rule('R6', 'below the first running row: either the lower-end arm of find_row_by_distance compares the scan index with the first '
                    'running row, or calculate_factor tests the neighbour\'s distance before it evaluates the neighbour\'s factor')
     ctx.rule('R7', 'every bare whole-metre distance is classified as a running event by event_code_to_kind (automata inclusion)')
+    ctx.rule('R9', 'the scan of find_row_by_distance runs to len(table) with no other exit')
+    ctx.rule('R10', 'every return of the untabulated-distance fallback of calculate_factor is computed from neighbour factors')
     ctx.rule('R8', 'data: the km column of every running row equals the distance its code denotes (get_distance folded on the code)')
     ctx.rule('R3', 'data: row "50" present per gender; running distances and standards positive')
     frd = mod.func('AgeGrader.find_row_by_distance')
@@ -404,6 +406,55 @@ def run(ctx, repo):
                         '`%s`: it is never taken, so below 50 m the "shorter neighbour" is the row before "50" - a throwing event without a '
                         'distance and, for some ages, without factors (%s); %s' % (sorted(starts), unparse(n.test), ', '.join(holes[:2]), detail),
                         "AgeGrader().calculate_factor('m', 10, '40') raises TypeError")
+    # ---- R9 the scan of find_row_by_distance covers all running rows: its upper bound is the length of the table - every assignment
+    # to the bound is len(table) - and the loop condition only compares the index with it and the row's distance with the target
+    bounds = []
+    for c in ast.walk(scan.test):
+        if isinstance(c, ast.Compare) and len(c.ops) == 1 and isinstance(c.left, ast.Name) and c.left.id == iv and isinstance(c.comparators[0], ast.Name):
+            bounds.append(c.comparators[0].id)
+    if not bounds:
+        raise AnalysisError('find_row_by_distance: the scan has no index bound')
+    bname = bounds[0]
+    bdefs = [a for a in ast.walk(frd) if isinstance(a, ast.Assign) and any(isinstance(t, ast.Name) and t.id == bname for t in a.targets)]
+    tparam = frd.args.args[2].arg if len(frd.args.args) > 2 else 'table'
+    bad_b = [a for a in bdefs if not (isinstance(a.value, ast.Call) and call_name(a.value) == 'len' and ast.unparse(a.value.args[0]) == tparam)]
+    extra_exits = [x for x in ast.walk(scan) if isinstance(x, (ast.Break, ast.Return))]
+    if bad_b or extra_exits or not bdefs:
+        node_ = (bad_b + extra_exits + [scan])[0]
+        ctx.finding('R9', '%s::AgeGrader.find_row_by_distance::scan does not cover the whole table' % AGE, AGE, node_.lineno,
+                    'the scan for the bracketing rows stops before the end of the table (`%s`): distances beyond that row are graded from the '
+                    'last row it reaches instead of their nearest tabulated neighbours, and the end-of-table rule uses the wrong end' % unparse(node_)[:70],
+                    "a bare distance such as '10500' or '250000'")
+    else:
+        ctx.ok('R9', 'the scan runs to len(%s) with no other exit' % tparam)
+    # ---- R10 in the fallback for untabulated distances every answer is computed from the neighbours' factors: each return of the
+    # handler is the interpolated value or a recursive calculate_factor (no constant, no answer that ignores the neighbours)
+    hnd = [h for t_ in ast.walk(cf) if isinstance(t_, ast.Try) for h in t_.handlers]
+    n_ret = 0
+    for h in hnd:
+        for r in [x for x in ast.walk(h) if isinstance(x, ast.Return)]:
+            n_ret += 1
+            v = r.value
+            names_ = {x.id for x in ast.walk(v) if isinstance(x, ast.Name)} if v is not None else set()
+            from_nb = v is not None and (any(isinstance(c, ast.Call) and call_name(c) == 'calculate_factor' for c in ast.walk(v)) or any(
+                any(isinstance(c, ast.Call) and call_name(c) == 'calculate_factor' for d_ in envc.get(nm, []) for c in ast.walk(d_))
+                or any(any(isinstance(c, ast.Call) and call_name(c) == 'calculate_factor' for d2 in envc.get(n2, []) for c in ast.walk(d2))
+                       for d_ in envc.get(nm, []) for n2 in {x.id for x in ast.walk(d_) if isinstance(x, ast.Name)})
+                for nm in names_))
+            if not from_nb and isinstance(v, ast.Subscript) and isinstance(v.value, ast.Attribute):
+                # a memo hit: the container is filled in this function with a neighbour-derived value (transparency is rule HIST)
+                cont = ast.unparse(v.value)
+                for a_ in ast.walk(cf):
+                    if isinstance(a_, ast.Assign) and any(isinstance(t_, ast.Subscript) and ast.unparse(t_.value) == cont for t_ in a_.targets):
+                        from_nb = True
+            if not from_nb:
+                ctx.finding('R10', '%s::AgeGrader.calculate_factor::fallback returns %s' % (AGE, unparse(v) if v is not None else 'None'), AGE, r.lineno,
+                            'for an untabulated distance calculate_factor returns `%s`, which is not computed from the factors of the neighbouring '
+                            'events: for ages whose tabulated factors differ from it the answer is not between its neighbours' % (
+                                unparse(v) if v is not None else 'None'), "age 8, '150'")
+    ctx.count('returns of the untabulated-distance fallback examined', n_ret)
+    if n_ret and not any(f.rule == 'R10' for f in ctx.findings):
+        ctx.ok('R10', 'all %d returns of the fallback are computed from neighbour factors' % n_ret)
     # ---- R7 every bare whole-metre distance is classified as a running event by the grader's classifier (else the interpolation is
     # never reached: "instead of failing"); the classifier's dispatch is read from the code, the inclusion is decided on automata
     from .. import rx
